@@ -265,7 +265,7 @@ H_Retain(e) ==
     /\ (BothFull(e, s) /\ ~Panicked(e)) =>
         LET E == Cont(Pre(s))
             M == Mutated(E, e.calls)
-            kept == {x \in M : Verdict(e.calls, x[1]) = 1}
+            kept == {x \in M : Called(e.calls, x[1]) => Verdict(e.calls, x[1]) = 1}
         IN
         /\ Chk("C09", "retain_calls_each_once", e, CalledOnce(E, e.calls) /\ CallKeys(e.calls) = Keys(E))
         /\ Chk("C09", "retain_call_args", e,
@@ -663,7 +663,7 @@ H_SetOp(e) ==
                         IF pres THEN (e.res.t = "some" /\ e.res.k = e.k /\ e.res.kid = el[3]) ELSE e.res.t = "none")
                  /\ ContentsAre(e, s, E) /\ DropsAre(e, {}) /\ CostQuiet(e, s, 1)
           [] OTHER -> \* get_or_insert, get_or_insert_owned (clones the probe only when absent), get_or_insert_with
-                 LET newid == IF e.op = "SGetOrInsertOwned" /\ ~pres /\ Hdr.elem = "heap" THEN e.led.new[1] ELSE e.kid IN
+                 LET newid == IF e.op = "SGetOrInsertOwned" /\ ~pres /\ Hdr.elem = "heap" /\ Len(e.led.new) > 0 THEN e.led.new[1] ELSE e.kid IN
                  /\ Chk("C13", "set_get_or_insert_result", e,
                         e.res.t = "some" /\ e.res.k = e.k /\ e.res.kid = (IF pres THEN el[3] ELSE newid))
                  /\ ContentsAre(e, s, IF pres THEN E ELSE E \cup {<<e.k, 0, newid, 0>>})
